@@ -106,7 +106,8 @@ fn spec(prop: &str) -> Option<Spec> {
         "C07" => Spec {
             prop: "C07",
             hosts: &[Direct],
-            gen: GenCfg::standard(),
+            // mixed fates are the point: as many drops as resolutions
+            gen: GenCfg { drop_weight: 8, ..GenCfg::standard() },
             rule: "programs mixing requests, streams, joins, selects, join handles, self-waking futures; schedules resolve some requests and drop others; is_done and the discarded/kept tasks are compared with the reference after every action; non-trivial = >= 1 drop and a join or select in the program; distinct = distinct universe",
             nontrivial: |u, i| {
                 let s = uses(u);
